@@ -1,3 +1,421 @@
-/- C05 property theorems (not written yet) -/
+/-
+C05 — responses are well-formed WSGI output.
+Property theorems only (helper lemmas: Lemmas/Response.lean; models: Model/Headers.lean,
+Model/Response.lean; generated tables: Gen/Response.lean).
+-/
+import WzVerif.Lemmas.Response
 namespace Wz.Props.C05
+open Wz Hdr Resp Wz.C05L
+
+/-! ## header hygiene through every mutator -/
+
+/-- For EVERY sequence of public mutators (`add`, `set`, `setlist`, `setdefault`,
+`setlistdefault`, `extend`, `update`, `|=`, `h[k]=`, `h[i]=`, `h[a:b]=`, `del`, `remove`, `pop…`,
+`clear`; the keyword forms reach the same code after the options header was dumped), applied to an
+empty `Headers`, every stored value is free of CR and LF — whether the individual calls succeeded
+or raised. No bound on the length of the history. -/
+theorem headers_newline_free (ops : List Hdr.Op) : Clean (Hdr.run [] ops) :=
+  run_clean [] ops clean_nil
+
+/-- the same from any constructor input: `Headers(defaults)` either raises or yields clean values -/
+theorem headers_construct_newline_free (arg : Option Arg) (l : HList) (h : Hdr.construct arg = .ok l)
+    (ops : List Hdr.Op) : Clean (Hdr.run l ops) := by
+  apply run_clean
+  unfold Hdr.construct at h
+  have := extend_clean [] arg [] clean_nil
+  cases he : extend [] arg [] with
+  | mk l' res =>
+    rw [he] at h this
+    cases res with
+    | ok _ => simp at h; subst h; exact this
+    | error e => simp at h
+
+example : Hdr.construct (some (.pairs [("X".toList, "a\nb".toList)])) = .error "ValueError" := by rfl
+
+def isErr {α : Type} (r : Except String α) : Prop := ∃ e, r = .error e
+
+/-- the single-value mutators refuse a value containing CR or LF with ValueError and leave the
+list unchanged: `add`, `set`, `h[k] = v`, `h[i] = (k, v)`; so does slice assignment when any of
+its values is bad (all values are checked before the list is touched) -/
+theorem atomic_mutator_refuses (l : HList) (k v : Str) (i : Int) (s : Slice) (ps : List Pair)
+    (hv : hasNL v = true) (hps : ∃ p ∈ ps, hasNL p.2 = true) :
+    Hdr.step l (.add k v) = (l, .error "ValueError") ∧
+    Hdr.step l (.set k v) = (l, .error "ValueError") ∧
+    Hdr.step l (.setitemKey k v) = (l, .error "ValueError") ∧
+    Hdr.step l (.setitemIdx i (k, v)) = (l, .error "ValueError") ∧
+    Hdr.step l (.setitemSlice s ps) = (l, .error "ValueError") := by
+  refine ⟨?_, ?_, ?_, ?_, ?_⟩
+  · simp [Hdr.step, retUnit, Hdr.add, strHeaderValue, hv, Except.map]
+  · simp [Hdr.step, retUnit, Hdr.set, strHeaderValue, hv, Except.map]
+  · simp [Hdr.step, retUnit, Hdr.set, strHeaderValue, hv, Except.map]
+  · simp [Hdr.step, retUnit, Hdr.setIdx, strHeaderValue, hv, Except.map]
+  · have : cleanPairs ps = .error "ValueError" := by
+      obtain ⟨p, hp, hb⟩ := hps
+      induction ps with
+      | nil => cases hp
+      | cons q t ih =>
+        obtain ⟨qk, qv⟩ := q
+        simp only [cleanPairs]
+        cases hq : hasNL qv with
+        | true => simp [strHeaderValue, hq]
+        | false =>
+          simp only [strHeaderValue, hq, Bool.false_eq_true, if_false]
+          rcases List.mem_cons.1 hp with e | e
+          · subst e; simp [hq] at hb
+          · rw [ih e]
+    simp [Hdr.step, retUnit, setSliceOp, this, Except.map]
+
+example : hasNL "v\r\nSet-Cookie: evil=1".toList = true := by decide
+
+/-- the multi-value mutators (`setlist`, `extend`, `update` / `|=` with pairs or a mapping) fail
+as soon as they reach a value with CR or LF: the call raises (what was stored before that point
+stays, and by `headers_newline_free` it is clean) -/
+theorem compound_mutator_refuses (l : HList) (k : Str) (vs : List Str) (ps : List Pair) (m : MapArg)
+    (hvs : ∃ v ∈ vs, hasNL v = true) (hps : ∃ p ∈ ps, hasNL p.2 = true)
+    (hm : ∃ p ∈ mapItems m, hasNL p.2 = true) :
+    isErr (Hdr.step l (.setlist k vs)).2 ∧
+    isErr (Hdr.step l (.extend (some (.pairs ps)) [])).2 ∧
+    isErr (Hdr.step l (.extend none m)).2 ∧
+    isErr (Hdr.step l (.update (some (.pairs ps)) [])).2 ∧
+    isErr (Hdr.step l (.update (some (.mapping m)) [])).2 := by
+  have addAll_bad : ∀ (l : HList) (vs : List Str), (∃ v ∈ vs, hasNL v = true) → isErr (addAll l k vs).2 := by
+    intro l vs
+    induction vs generalizing l with
+    | nil => rintro ⟨v, hv, _⟩; cases hv
+    | cons v t ih =>
+      rintro ⟨w, hw, hb⟩
+      simp only [addAll]
+      cases hv : hasNL v with
+      | true => exact ⟨"ValueError", by simp [Hdr.add, strHeaderValue, hv]⟩
+      | false =>
+        simp only [Hdr.add, strHeaderValue, hv, Bool.false_eq_true, if_false]
+        rcases List.mem_cons.1 hw with e | e
+        · subst e; simp [hv] at hb
+        · exact ih _ ⟨w, e, hb⟩
+  have addPairs_bad : ∀ (l : HList) (ps : List Pair), (∃ p ∈ ps, hasNL p.2 = true) → isErr (addPairs l ps).2 := by
+    intro l ps
+    induction ps generalizing l with
+    | nil => rintro ⟨v, hv, _⟩; cases hv
+    | cons q t ih =>
+      obtain ⟨qk, qv⟩ := q
+      rintro ⟨w, hw, hb⟩
+      simp only [addPairs]
+      cases hv : hasNL qv with
+      | true => exact ⟨"ValueError", by simp [Hdr.add, strHeaderValue, hv]⟩
+      | false =>
+        simp only [Hdr.add, strHeaderValue, hv, Bool.false_eq_true, if_false]
+        rcases List.mem_cons.1 hw with e | e
+        · subst e; simp [hv] at hb
+        · exact ih _ ⟨w, e, hb⟩
+  have set_ok : ∀ (l : HList) (k v : Str), hasNL v = false → ∃ l', Hdr.set l k v = (l', .ok ()) := by
+    intro l k v hv
+    unfold Hdr.set
+    simp only [strHeaderValue, hv, Bool.false_eq_true, if_false]
+    split
+    · exact ⟨_, rfl⟩
+    · split <;> exact ⟨_, rfl⟩
+  have setPairs_bad : ∀ (l : HList) (ps : List Pair), (∃ p ∈ ps, hasNL p.2 = true) → isErr (setPairs l ps).2 := by
+    intro l ps
+    induction ps generalizing l with
+    | nil => rintro ⟨v, hv, _⟩; cases hv
+    | cons q t ih =>
+      obtain ⟨qk, qv⟩ := q
+      rintro ⟨w, hw, hb⟩
+      simp only [setPairs]
+      cases hv : hasNL qv with
+      | true => exact ⟨"ValueError", by simp [Hdr.set, strHeaderValue, hv]⟩
+      | false =>
+        obtain ⟨l', hl'⟩ := set_ok l qk qv hv
+        rw [hl']
+        rcases List.mem_cons.1 hw with e | e
+        · subst e; simp [hv] at hb
+        · exact ih _ ⟨w, e, hb⟩
+  have setlist_bad : ∀ (l : HList) (k : Str) (vs : List Str), (∃ v ∈ vs, hasNL v = true) → isErr (setlist l k vs).2 := by
+    intro l k' vs
+    cases vs with
+    | nil => rintro ⟨v, hv, _⟩; cases hv
+    | cons v t =>
+      rintro ⟨w, hw, hb⟩
+      simp only [setlist]
+      cases hv : hasNL v with
+      | true => exact ⟨"ValueError", by simp [Hdr.set, strHeaderValue, hv]⟩
+      | false =>
+        obtain ⟨l', hl'⟩ := set_ok l k' v hv
+        rw [hl']
+        rcases List.mem_cons.1 hw with e | e
+        · subst e; simp [hv] at hb
+        · have : ∀ (l : HList) (vs : List Str), (∃ v ∈ vs, hasNL v = true) → isErr (addAll l k' vs).2 := by
+            intro l vs
+            induction vs generalizing l with
+            | nil => rintro ⟨v, hv, _⟩; cases hv
+            | cons v t ih =>
+              rintro ⟨w, hw, hb⟩
+              simp only [addAll]
+              cases hv : hasNL v with
+              | true => exact ⟨"ValueError", by simp [Hdr.add, strHeaderValue, hv]⟩
+              | false =>
+                simp only [Hdr.add, strHeaderValue, hv, Bool.false_eq_true, if_false]
+                rcases List.mem_cons.1 hw with e | e
+                · subst e; simp [hv] at hb
+                · exact ih _ ⟨w, e, hb⟩
+          exact this _ _ ⟨w, e, hb⟩
+  have updateMap_bad : ∀ (l : HList) (m : MapArg), (∃ p ∈ mapItems m, hasNL p.2 = true) → isErr (updateMap l m).2 := by
+    intro l m
+    induction m generalizing l with
+    | nil => rintro ⟨v, hv, _⟩; cases hv
+    | cons e t ih =>
+      obtain ⟨ek, mv⟩ := e
+      rintro ⟨w, hw, hb⟩
+      cases mv with
+      | one v =>
+        simp only [mapItems, List.mem_cons] at hw
+        simp only [updateMap]
+        cases hv : hasNL v with
+        | true => exact ⟨"ValueError", by simp [Hdr.set, strHeaderValue, hv]⟩
+        | false =>
+          obtain ⟨l', hl'⟩ := set_ok l ek v hv
+          rw [hl']
+          rcases hw with e | e
+          · subst e; simp [hv] at hb
+          · exact ih _ ⟨w, e, hb⟩
+      | many vs =>
+        simp only [mapItems, List.mem_append, List.mem_map] at hw
+        simp only [updateMap]
+        by_cases hbad : ∃ v ∈ vs, hasNL v = true
+        · obtain ⟨e, he⟩ := setlist_bad l ek vs hbad
+          cases hs : setlist l ek vs with
+          | mk l' res =>
+            rw [hs] at he
+            simp only at he
+            subst he
+            exact ⟨e, rfl⟩
+        · rcases hw with ⟨v, hv, hwv⟩ | hw
+          · exact absurd ⟨v, hv, by subst hwv; exact hb⟩ hbad
+          · cases hs : setlist l ek vs with
+            | mk l' res =>
+              cases res with
+              | error e => exact ⟨e, rfl⟩
+              | ok _ => exact ih _ ⟨w, hw, hb⟩
+  refine ⟨?_, ?_, ?_, ?_, ?_⟩
+  · obtain ⟨e, he⟩ := setlist_bad l k vs hvs
+    exact ⟨e, by simp [Hdr.step, retUnit, he, Except.map]⟩
+  · obtain ⟨e, he⟩ := addPairs_bad l ps hps
+    refine ⟨e, ?_⟩
+    simp only [Hdr.step, retUnit, extend, extendHead, iterMultiItems, andThen]
+    cases hs : addPairs l ps with
+    | mk l' res => rw [hs] at he; simp only at he; subst he; rfl
+  · obtain ⟨e, he⟩ := addPairs_bad l (mapItems m) hm
+    exact ⟨e, by simp [Hdr.step, retUnit, extend, extendHead, andThen, he, Except.map]⟩
+  · obtain ⟨e, he⟩ := setPairs_bad l ps hps
+    refine ⟨e, ?_⟩
+    simp only [Hdr.step, retUnit, update, updateHead, andThen]
+    cases hs : setPairs l ps with
+    | mk l' res => rw [hs] at he; simp only at he; subst he; rfl
+  · obtain ⟨e, he⟩ := updateMap_bad l m hm
+    refine ⟨e, ?_⟩
+    simp only [Hdr.step, retUnit, update, updateHead, andThen]
+    cases hs : updateMap l m with
+    | mk l' res => rw [hs] at he; simp only at he; subst he; rfl
+
+example : ∃ p ∈ mapItems [("a".toList, MVal.many ["1".toList, "2\n".toList])], hasNL p.2 = true :=
+  ⟨("a".toList, "2\n".toList), by decide, by decide⟩
+
+/-- the headers handed to the WSGI server are clean when the response headers are (the converted
+Location / Content-Location values come from `iri_to_uri`, which escapes control characters — C15 —
+hence the hypotheses on them) -/
+theorem wsgi_headers_newline_free (r : R) (lo co : Str) (h : Clean r.headers)
+    (hlo : hasNL lo = false) (hco : hasNL co = false) : Clean (getWsgiHeaders r lo co) := by
+  have set_clean' : ∀ (l : HList) (k v : Str), Clean l → hasNL v = false → Clean (Hdr.set l k v).1 :=
+    fun l k v hl _ => set_clean l k v hl
+  unfold getWsgiHeaders
+  simp only
+  have h1 : Clean (if (getlist r.headers "location".toList).isEmpty then r.headers
+      else (Hdr.set r.headers "Location".toList lo).1) := by
+    split
+    · exact h
+    · exact set_clean' _ _ _ h hlo
+  generalize (if (getlist r.headers "location".toList).isEmpty then r.headers
+      else (Hdr.set r.headers "Location".toList lo).1) = ha at h1
+  have h2 : Clean (if (getlist r.headers "content-location".toList).isEmpty then ha
+      else (Hdr.set ha "Content-Location".toList co).1) := by
+    split
+    · exact h1
+    · exact set_clean' _ _ _ h1 hco
+  generalize (if (getlist r.headers "content-location".toList).isEmpty then ha
+      else (Hdr.set ha "Content-Location".toList co).1) = hb at h2
+  have h3 : Clean (if (decide (100 ≤ r.status) && decide (r.status < 200) || r.status == 204) = true then
+      delKey hb "Content-Length".toList else if (r.status == 304) = true then removeEntityHeaders hb else hb) := by
+    split
+    · exact delKey_clean _ _ h2
+    · split
+      · exact clean_filter _ h2
+      · exact h2
+  generalize (if (decide (100 ≤ r.status) && decide (r.status < 200) || r.status == 204) = true then
+      delKey hb "Content-Length".toList else if (r.status == 304) = true then removeEntityHeaders hb else hb) = hc at h3
+  split
+  · exact set_clean' _ _ _ h3 (C16L.natText_noNL _)
+  · exact h3
+
+/-! ## body suppression and Content-Length: the regenerated exhaustive table -/
+
+def rowStatus (key : Nat) : Nat := key / 12
+def rowMethod (key : Nat) : Nat := key % 12 / 4
+def rowPreset (key : Nat) : Bool := key % 4 / 2 == 1
+def rowStream (key : Nat) : Bool := key % 2 == 1
+def rowBytes (val : Nat) : Nat := val % 100
+/-- 0 = no Content-Length, else its value + 1 -/
+def rowCL (val : Nat) : Nat := val / 100 % 1000
+
+/-- walk the table checking that the keys are consecutive from `n`; answers the next key -/
+def scanKeys : Nat → List (Nat × Nat) → Option Nat
+  | n, [] => some n
+  | n, (k, _) :: t => if k == n then scanKeys (n + 1) t else none
+
+/-- the table covers every status 100..599 × method × preset × body kind exactly once
+(keys 100·12 … 599·12+11 in order) -/
+theorem table_exhaustive : scanKeys 1200 Gen.Response.wsgiTable = some 7200 := by
+  decide +kernel
+
+/-- On the real code, for every status 100..599, method GET/HEAD/POST, preset or absent
+Content-Length and sequence or streamed body: no body byte is produced iff the method is HEAD or
+the status is 1xx, 204 or 304 (otherwise all 5 bytes of the test body are). -/
+theorem bodyless_iff :
+    Gen.Response.wsgiTable.all (fun (k, v) =>
+      let s := rowStatus k
+      let nobody := rowMethod k == 1 || (100 ≤ s && s < 200) || s == 204 || s == 304
+      rowBytes v == (if nobody then 0 else 5)) = true := by
+  decide +kernel
+
+/-- ... and no Content-Length is sent with 1xx / 204 (nor with 304, where all entity headers are
+stripped), a preset Content-Length is otherwise kept, and an absent one is computed exactly for
+sequence bodies (5 = bytes of the encoded items) and left absent for streamed bodies. -/
+theorem content_length_table :
+    Gen.Response.wsgiTable.all (fun (k, v) =>
+      let s := rowStatus k
+      let stripped := (100 ≤ s && s < 200) || s == 204 || s == 304
+      rowCL v == (if stripped then 0 else if rowPreset k then 100 else if rowStream k then 0 else 6)) = true := by
+  decide +kernel
+
+/-- the model's decision, computed by running Model.Response on the same 6000 inputs -/
+def modelRow (key : Nat) : Nat :=
+  let m : Str := if rowMethod key == 0 then "GET".toList else if rowMethod key == 1 then "HEAD".toList else "POST".toList
+  let body : Body := ⟨if rowStream key then .stream true else .seq, [.bytes [97, 98], .text ['c', 'é']]⟩
+  match construct [] (.code (rowStatus key)) body none false with
+  | .error _ => 0
+  | .ok r0 =>
+    let r := if rowPreset key then { r0 with headers := (Hdr.set r0.headers "Content-Length".toList "99".toList).1 } else r0
+    let h := getWsgiHeaders r [] []
+    let n := (getAppIter r m).chunks.flatten.length
+    let cl := match (getlist h "content-length".toList).head? with
+      | none => 0
+      | some v => (Views.CC.digitsVal v).getD 0 + 1
+    n + 100 * cl + 100000 * (if Hdr.contains h "content-type".toList then 1 else 0)
+
+/-- the hand-written model of `get_wsgi_headers` / `get_app_iter` agrees with the real code on
+the whole table (so the general theorems below speak about the code's decisions) -/
+theorem model_matches_table :
+    Gen.Response.wsgiTable.all (fun (k, v) => modelRow k == v) = true := by
+  have h0 : Gen.Response.wsgiTable0.all (fun (k, v) => modelRow k == v) = true := by decide +kernel
+  have h1 : Gen.Response.wsgiTable1.all (fun (k, v) => modelRow k == v) = true := by decide +kernel
+  have h2 : Gen.Response.wsgiTable2.all (fun (k, v) => modelRow k == v) = true := by decide +kernel
+  have h3 : Gen.Response.wsgiTable3.all (fun (k, v) => modelRow k == v) = true := by decide +kernel
+  have h4 : Gen.Response.wsgiTable4.all (fun (k, v) => modelRow k == v) = true := by decide +kernel
+  have h5 : Gen.Response.wsgiTable5.all (fun (k, v) => modelRow k == v) = true := by decide +kernel
+  have h6 : Gen.Response.wsgiTable6.all (fun (k, v) => modelRow k == v) = true := by decide +kernel
+  have h7 : Gen.Response.wsgiTable7.all (fun (k, v) => modelRow k == v) = true := by decide +kernel
+  have h8 : Gen.Response.wsgiTable8.all (fun (k, v) => modelRow k == v) = true := by decide +kernel
+  have h9 : Gen.Response.wsgiTable9.all (fun (k, v) => modelRow k == v) = true := by decide +kernel
+  have h10 : Gen.Response.wsgiTable10.all (fun (k, v) => modelRow k == v) = true := by decide +kernel
+  have h11 : Gen.Response.wsgiTable11.all (fun (k, v) => modelRow k == v) = true := by decide +kernel
+  have h12 : Gen.Response.wsgiTable12.all (fun (k, v) => modelRow k == v) = true := by decide +kernel
+  simp only [Gen.Response.wsgiTable, List.all_append, h0, h1, h2, h3, h4, h5, h6, h7, h8, h9, h10, h11, h12, Bool.and_self]
+
+/-- general form in the model: the iterable handed to the server yields nothing iff HEAD / 1xx /
+204 / 304 — for every response, status (any int) and method -/
+theorem model_bodyless (r : R) (method : Str) :
+    (bodyless r.status method = true → (getAppIter r method).chunks = []) ∧
+    (bodyless r.status method = false → (getAppIter r method).chunks = r.body.items.map Item.encode) := by
+  constructor
+  · intro h; simp [getAppIter, h]
+  · intro h; simp only [getAppIter, h, Bool.false_eq_true, if_false]; split <;> rfl
+
+/-- a Content-Length that werkzeug computes equals the number of bytes the iterable produces:
+for every sequence body (text items count their UTF-8 length), when no Content-Length was preset
+and the response may carry a body -/
+theorem auto_length_exact (r : R) (method : Str) (lo co : Str)
+    (hseq : r.body.kind = .seq) (hnone : getlist r.headers "content-length".toList = [])
+    (hb : bodyless r.status method = false) :
+    getlist (getWsgiHeaders r lo co) "content-length".toList
+      = [Views.CC.natText (getAppIter r method).chunks.flatten.length] := by
+  have hlen : (getAppIter r method).chunks.flatten.length = totalLen r.body.items := by
+    rw [(model_bodyless r method).2 hb, List.length_flatten, List.map_map]
+    rfl
+  rw [hlen]
+  simp only [bodyless, Bool.or_eq_false_iff, Bool.and_eq_false_iff] at hb
+  obtain ⟨⟨⟨_, h1⟩, h2⟩, h3⟩ := hb
+  have hinf : (decide (100 ≤ r.status) && decide (r.status < 200)) = false := by
+    rcases h1 with h | h <;> simp [h]
+  unfold getWsgiHeaders
+  simp only [hnone, List.getLast?_nil, Option.isNone_none, hseq, hinf, h2, h3, beq_self_eq_true,
+    Bool.or_self, Bool.not_false, Bool.and_self, if_true, Bool.false_eq_true, if_false]
+  exact C16L.set_getlist' _ _ _ _ (by decide) (C16L.natText_noNL _)
+
+example : totalLen [.bytes [97, 98], .text ['c', 'é'], .bytes []] = 5 := by decide +kernel
+
+/-! ## close callbacks -/
+
+/-- F05 excluded: unless the response is in direct passthrough *and* carries a body, closing the
+returned iterable runs the wrapped iterable's `close` (when it has one) and every registered
+callback exactly once, in registration order — whatever prefix was iterated (the close actions do
+not depend on it). -/
+theorem close_exactly_once_partial (r : R) (method : Str)
+    (h : ¬ (r.directPassthrough = true ∧ bodyless r.status method = false)) :
+    closeLog r method = expectedClose r := by
+  unfold closeLog getAppIter expectedClose respClose
+  cases hb : bodyless r.status method with
+  | true => simp
+  | false =>
+    cases hd : r.directPassthrough with
+    | true => exact absurd ⟨hd, hb⟩ h
+    | false => simp
+
+example : ¬ ((⟨[], [], 200, ⟨.stream true, []⟩, false, [.cb 0]⟩ : R).directPassthrough = true ∧
+    bodyless 200 "GET".toList = false) := by decide
+
+/-- F05: the full statement is false — with `direct_passthrough=True`, status 200, GET, a closable
+body and one registered callback, closing the returned iterable runs the body's `close` but never
+the callback. -/
+theorem close_exactly_once_full_false :
+    ¬ (∀ (r : R) (method : Str), closeLog r method = expectedClose r) := by
+  intro h
+  exact absurd (h ⟨[], [], 200, ⟨.stream true, []⟩, true, [.cb 0]⟩ "GET".toList) (by decide)
+
+/-- registering callbacks and calling `get_data()` (which turns a streamed body into a sequence
+and hands the original `close` over to the callbacks) before the WSGI call do not lose or duplicate
+any close action: every event is logged as often as it was expected before -/
+theorem close_counts_after_make_sequence (r : R) (method : Str) (e : CloseEv)
+    (h : ¬ (r.directPassthrough = true ∧ bodyless r.status method = false)) :
+    (closeLog (makeSequence r) method).count e = (expectedClose r).count e := by
+  have hm : ¬ ((makeSequence r).directPassthrough = true ∧ bodyless (makeSequence r).status method = false) := by
+    unfold makeSequence; split <;> exact h
+  rw [close_exactly_once_partial _ _ hm]
+  unfold expectedClose makeSequence
+  cases hk : r.body.kind with
+  | seq => simp [hk]
+  | stream c =>
+    cases c with
+    | true => simp only [hk, if_true, List.count_append, List.count_cons, List.count_nil]; omega
+    | false => simp [hk]
+
+/-- `call_on_close` adds exactly one expected run of the new callback -/
+theorem close_counts_after_call_on_close (r : R) (n : Nat) (e : CloseEv) :
+    (expectedClose (callOnClose r n)).count e = (expectedClose r).count e + (if e = .cb n then 1 else 0) := by
+  unfold expectedClose callOnClose
+  rw [← List.append_assoc, List.count_append, List.count_singleton]
+  by_cases he : e = .cb n
+  · subst he; simp
+  · have h1 : (CloseEv.cb n == e) = false := by
+      rw [beq_eq_false_iff_ne]; exact fun h => he h.symm
+    rw [h1, if_neg he]; simp
+
 end Wz.Props.C05
